@@ -282,6 +282,10 @@ def interact_part(rep, rng):
             probs.append("the user method is called with %s, its parameters are declared in the order %s" % (rd["call_args"], want))
         if sorted(rd["msg"] or []) != sorted(want) or sorted(rd["binds"] or []) != sorted(want):
             probs.append("message fields %s / arm bindings %s are not exactly the parameters %s" % (rd["msg"], rd["binds"], want))
+        # a model-supplied variable is filled from the getter its name spells: `inter_<word>` <- `inter_get_<word>` (one marker removed)
+        want_get = ["g:%s:inter_get_%s" % (q["tree"][1], q["tree"][1][6:]) for q in c["params"] if q["kind"] == "G"]
+        if [x for x in real["pre"] if x.startswith("g:")] != want_get:
+            probs.append("model-supplied parameters are filled from %s, expected %s" % ([x for x in real["pre"] if x.startswith("g:")], want_get))
         if [n for n, _ in real["params"]] != keep:
             probs.append("handle parameters %s are not the caller-supplied parameters %s in their order" % ([n for n, _ in real["params"]], keep))
         if not rep.oblige(not probs):
